@@ -228,7 +228,7 @@ static void print_getters(const ProgramOptions& o) {
       << " Alpha2=" << hx(o.getAlpha2()) << " RFAmplitudeSpread=" << dhex(o.getRFAmplitudeSpread()) << " RFPhaseSpread=" << dhex(o.getRFPhaseSpread())
       << " RFPhaseModAmplitude=" << dhex(o.getRFPhaseModAmplitude()) << " RFPhaseModFrequency=" << dhex(o.getRFPhaseModFrequency())
       << " BeamEnergy=" << dhex(o.getBeamEnergy()) << " BendingRadius=" << dhex(o.getBendingRadius()) << " CutoffFrequency=" << hx(o.getCutoffFrequency())
-      << " EnergySpread=" << dhex(o.getEnergySpread()) << " HaissinskiIterations=" << o.getHaissinskiIterations()
+      << " EnergySpread=" << dhex(o.getEnergySpread())
       << " HarmonicNumber=" << hx(o.getHarmonicNumber()) << " RevolutionFrequency=" << hx(o.getRevolutionFrequency())
       << " RFVoltage=" << dhex(o.getRFVoltage()) << " StartDistZoom=" << dhex(o.getStartDistZoom()) << " SyncFreq=" << hx(o.getSyncFreq())
       << " DampingTime=" << dhex(o.getDampingTime()) << " VacuumChamberGap=" << dhex(o.getVacuumChamberGap()) << " UseCSR=" << o.getUseCSR()
